@@ -264,4 +264,14 @@ pub fn generate(thorough: bool, seed: u64, em: &mut Emitter) {
     for (doc, claims, paths) in docs {
         em.case("yaml", json!({"doc": doc, "claims": claims, "paths": paths, "expect_ok": true, "nontrivial": true, "tag": "tags_nested_three_deep"}));
     }
+    // a tagged sequence item that is itself a mapping or sequence with tags inside: the library refuses such documents; an
+    // answer must carry the untagged claims and paths in an order in which issuing works
+    for (doc, claims) in [
+        ("credentials:\n  - !sd {type: degree, !sd gpa: 3.9}\n  - plain\n", json!({"credentials": [{"type": "degree", "gpa": 3.9}, "plain"]})),
+        ("l:\n  - !sd\n    a: 1\n    !sd b:\n      !sd c: 2\n", json!({"l": [{"a": 1, "b": {"c": 2}}]})),
+        ("l:\n  - !sd [x, !sd y]\n", json!({"l": [["x", "y"]]})),
+    ] {
+        em.case("yaml", json!({"doc": doc, "claims": claims, "paths": [], "expect_ok": "if_ok_then_untagged",
+                               "nontrivial": true, "tag": "tagged_container_item_with_tags_inside"}));
+    }
 }
